@@ -10,6 +10,7 @@ evaluated at jet positions, and f(w) relations from coefficient_derivatives pert
 The eps-coefficient of S(F) is compared with S(expanded).  If UFL raises, the case is 'rejected'.
 """
 
+import numpy as np
 import ufl
 from ufl.algorithms import expand_derivatives
 
@@ -43,8 +44,8 @@ ASSUMPTIONS = [
 BUDGET = {"quick": 50, "thorough": 450}
 NCASES = {"quick": 3000, "thorough": 60000}
 FLOORS = {"quick": {"case_held": 400, "nontrivial": 300}, "thorough": {"case_held": 8000, "nontrivial": 6000}}
-VARIANTS = ["whole", "whole", "component", "tuple", "auto", "second", "cd", "coef-direction", "mixed-split"]
-COVER_FLOORS = {"quick": {"variants_held": ["whole", "component", "tuple", "auto", "second", "coef-direction"]}, "thorough": {"variants_held": ["whole", "component", "tuple", "auto", "second", "coef-direction", "cd", "mixed-split"]}}
+VARIANTS = ["whole", "whole", "component", "tuple", "auto", "second", "cd", "coef-direction", "mixed-split", "tuple-mixedarg", "tuple-auto"]
+COVER_FLOORS = {"quick": {"variants_held": ["whole", "component", "tuple", "auto", "second", "coef-direction", "tuple-mixedarg", "tuple-auto"]}, "thorough": {"variants_held": ["whole", "component", "tuple", "auto", "second", "coef-direction", "cd", "mixed-split", "tuple-mixedarg", "tuple-auto"]}}
 CELLS = [("interval", 1), ("triangle", 2), ("triangle", 2), ("triangle", 3), ("tetrahedron", 3)]
 
 
@@ -63,6 +64,23 @@ def max_arg_number(e):
 
     walk(e)
     return max(nums)
+
+
+def arguments_of(e):
+    out = []
+    seen = set()
+
+    def walk(o):
+        if id(o) in seen:
+            return
+        seen.add(id(o))
+        if type(o).__name__ == "Argument" and o not in out:
+            out.append(o)
+        for c in o.ufl_operands:
+            walk(c)
+
+    walk(e)
+    return out
 
 
 def case(ctx, i, rng):
@@ -111,6 +129,25 @@ def case(ctx, i, rng):
             v1, v2 = U.arg(wname, nxt), (U.arg(w2name, nxt) if rng.random() < 0.5 else U.coef(w2name, 0))
             args = (F, (w, w2), (v1, v2))
             frames.append(((w, w2), (v1, v2), ()))
+        elif variant in ("tuple-mixedarg", "tuple-auto"):
+            # several coefficients, ONE direction on the mixed space of their elements (given or created by UFL):
+            # the direction of each coefficient is its slice of the mixed argument
+            w2name = rng.choice(names)
+            w2 = U.coef(w2name, 1)
+            G2 = Gen(U, rng, cplx=cplx, deriv=rng.choice([1, 1, 2]), cond=False, geom=False)
+            G2.extra = [w, w2, ufl.grad(w), ufl.grad(w2)]
+            G2.extra_prob = 0.7
+            F = F + G2.expr((), 2)
+            nxt = max_arg_number(F) + 1
+            ws = (w, w2) if w.count() < w2.count() or rng.random() < 0.5 else (w2, w)
+            if variant == "tuple-mixedarg":
+                mixed = ufl.FunctionSpace(U.mesh, E.VMixed([x.ufl_element() for x in ws]))
+                vm = ufl.Argument(mixed, nxt)
+                args = (F, ws, vm)
+            else:
+                vm = None
+                args = (F, ws)
+            frames.append((ws, None, ()))  # directions filled in below from the mixed argument
         elif variant == "auto":
             args = (F, w)
             v = ufl.Argument(w.ufl_function_space(), nxt)
@@ -129,6 +166,30 @@ def case(ctx, i, rng):
             args = (F, w, v, {g: dg})
             frames[0] = ((w,), (v,), ((g, dg),))
         e = ufl.derivative(*args)
+        if variant in ("tuple-mixedarg", "tuple-auto"):
+            if vm is None:
+                # find the argument UFL created: number max+1 on the mixed space of the coefficients' elements
+                found = [a for a in arguments_of(e) if a.number() == nxt]
+                if len(found) != 1:
+                    ctx.violation("C02/tuple-auto/created-argument", f"expected exactly one new argument with number {nxt}, found {found}", {"F": str(F)[:600]})
+                    return
+                vm = found[0]
+                subs = list(vm.ufl_element().sub_elements)
+                if [repr(x) for x in subs] != [repr(x.ufl_element()) for x in ws]:
+                    ctx.violation("C02/tuple-auto/created-argument-space", "the created argument is not on the mixed space of the coefficients' elements",
+                                  {"sub_elements": [repr(x) for x in subs], "coefficients": [repr(x.ufl_element()) for x in ws]})
+                    return
+            dirs = []
+            off = 0
+            for x in ws:
+                sh = tuple(x.ufl_shape)
+                n = int(np.prod(sh, dtype=int))
+                flat = [vm[off + t] for t in range(n)]
+                dirs.append(ufl.as_tensor(np.reshape(np.array(flat, dtype=object), sh).tolist()) if sh else flat[0])
+                off += n
+            if off != vm.ufl_shape[0]:
+                raise ValueError("mixed direction has another size than the coefficients")
+            frames[0] = (ws, tuple(dirs), ())
         if variant == "second":
             w_b = w if rng.random() < 0.6 else U.coef(rng.choice(names), 1)
             v_b = U.arg(sorted(n for n in names if U.spaces[n] == w_b.ufl_function_space())[0], nxt + 1)
